@@ -33,6 +33,9 @@ impl Compactor {
     }
 
     async fn compact_table(&self, snapshot: &Snapshot, table: SecondaryTable) -> StorageResult<()> {
+        // the per-table lock is held by the caller here
+        #[cfg(risinglight_verif)]
+        crate::verif::point("cp.locked", &table.table_id().to_string()).await;
         let rowsets = if let Some(rowsets) = snapshot.get_rowsets_of(table.table_id()) {
             rowsets
         } else {
@@ -186,6 +189,9 @@ impl Compactor {
 
         self.storage.version.commit_changes(changes).await?;
 
+        #[cfg(risinglight_verif)]
+        crate::verif::point("vm.committed", "cp").await;
+
         match rowset_id {
             Some(rowset_id) => {
                 info!(
@@ -210,7 +216,11 @@ impl Compactor {
             {
                 let tables = self.storage.tables.read().clone();
                 let pin_version = self.storage.version.pin();
+                #[cfg(risinglight_verif)]
+                crate::verif::point("cp.pinned", &pin_version.epoch.to_string()).await;
                 for (_, table) in tables {
+                    #[cfg(risinglight_verif)]
+                    crate::verif::point("cp.table", &table.table_id().to_string()).await;
                     if let Some(_guard) = self
                         .storage
                         .txn_mgr
@@ -220,6 +230,8 @@ impl Compactor {
                         warn!("failed to compact: {:?}", err);
                     }
                 }
+                #[cfg(risinglight_verif)]
+                crate::verif::point("cp.pass.end", "").await;
                 match self.stop.try_recv() {
                     Ok(_) => break,
                     Err(tokio::sync::oneshot::error::TryRecvError::Closed) => break,
